@@ -1747,3 +1747,24 @@ def fam_T(tier):
                            ("for (;;) { break; }", "for-empty-header"), ("int[3] arr; arr[2] = arr[0];", "local-array"), ("float x = 1; int i = x;", "float-to-int-init"),
                            ("float x = 2.5; int[3] arr; arr[x] = 1;", "float-index"), ("int i = 2.0;", "int-from-float-literal"), ("uint u = 3; int i = 0 - 5; u = i;", "negative-to-uint")):
         yield (t_case, f"misc;{feat}", [], src_body)
+
+
+# =============================================================================================
+# LONG: long bodies / deep expressions (pickle recursion depth, C17; size sweeps)
+# =============================================================================================
+@family("LONG")
+def fam_LONG(tier):
+    ns = [1, 2, 5, 10, 50, 100, 200, 400] if tier == "quick" else list(range(1, 401, 7))
+    for n in ns:
+        body = " ".join(f"a = a + {i % 5 + 1};" for i in range(n))
+        src = f"export function f(int a) -> int {{ {body} return a; }}\n"
+        yield {"fam": "LONG", "desc": f"statements={n}", "src": src, "units": [{"funcs": [], "entry": "f", "inputs": [({"a": 1}, {})]}]}
+    for n in ([2, 10, 40, 80, 120] if tier == "quick" else list(range(2, 121, 6))):
+        e = " + ".join(["a"] * n)
+        src = f"export function f(int a) -> int {{ return {e}; }}\n"
+        yield {"fam": "LONG", "desc": f"operands={n}", "src": src, "units": [{"funcs": [], "entry": "f", "inputs": [({"a": 3}, {})]}]}
+    for n in ([1, 5, 20] if tier == "quick" else [1, 2, 5, 10, 20, 40]):
+        loops = "".join(f"for (int i{k} = 0; i{k} < 2; ++i{k}) {{ " for k in range(n)) + "a = a + 1; " + "} " * n
+        src = f"export function f(int a) -> int {{ {loops} return a; }}\n"
+        if n <= 10:
+            yield {"fam": "LONG", "desc": f"nested-loops={n}", "src": src, "units": [{"funcs": [], "entry": "f", "inputs": [({"a": 0}, {})]}]}
